@@ -890,6 +890,98 @@ func addRelationlessParent(r *rng, m *Model) *Model {
 	return c
 }
 
+// addMidCycleFailure returns a copy of m that the weighted builder rejects in
+// the middle of its traversal, while a tuple cycle is still open: a relation X
+// is drawn into a tuple cycle with a self-referential relation C of m (X may
+// now be assigned C's usersets and the other way round) and then refers to an
+// intersection of two relations without a common user type. Whatever the
+// traversal has recorded about the open cycle is left behind by the error
+// path. Returns nil if m has no self-referential relation.
+func addMidCycleFailure(r *rng, m *Model) *Model {
+	c := m.clone()
+	type at struct {
+		t   *Type
+		rel *Relation
+	}
+	var cyc, all []at
+	for _, t := range c.Types {
+		for _, rel := range t.Relations {
+			all = append(all, at{t, rel})
+			self := false
+			for _, d := range rel.Direct {
+				if d.Type == t.Name && d.Rel == rel.Name {
+					self = true
+				}
+			}
+			var rec func(e *Expr)
+			rec = func(e *Expr) {
+				if e == nil {
+					return
+				}
+				if e.Kind == KTTU && e.Rel == rel.Name {
+					if ts := t.rel(e.Tupleset); ts != nil {
+						for _, d := range ts.Direct {
+							if d.Type == t.Name && d.Rel == "" && !d.Wild {
+								self = true
+							}
+						}
+					}
+				}
+				for _, ch := range e.Children {
+					rec(ch)
+				}
+			}
+			rec(rel.Expr)
+			if self {
+				cyc = append(cyc, at{t, rel})
+			}
+		}
+	}
+	if len(cyc) == 0 || len(all) < 2 {
+		return nil
+	}
+	cr := cyc[r.intn(len(cyc))]
+	var x at
+	for tries := 0; ; tries++ {
+		x = all[r.intn(len(all))]
+		if x.rel != cr.rel && exprHasThis(x.rel.Expr) {
+			break
+		}
+		if tries > 20 {
+			return nil
+		}
+	}
+	if !exprHasThis(cr.rel.Expr) {
+		return nil
+	}
+	x.rel.Direct = append(x.rel.Direct, Ref{Type: cr.t.Name, Rel: cr.rel.Name})
+	cr.rel.Direct = append(cr.rel.Direct, Ref{Type: x.t.Name, Rel: x.rel.Name})
+	// the failure, reached after the cycle
+	ua, ub := "zzua", "zzub"
+	c.Types = append(c.Types, &Type{Name: ua}, &Type{Name: ub})
+	x.t.Relations = append(x.t.Relations,
+		&Relation{Name: "zza", Expr: &Expr{Kind: KThis}, Direct: []Ref{{Type: ua}}},
+		&Relation{Name: "zzb", Expr: &Expr{Kind: KThis}, Direct: []Ref{{Type: ub}}},
+		&Relation{Name: "zzbroken", Expr: &Expr{Kind: KInter, Children: []*Expr{{Kind: KComputed, Rel: "zza"}, {Kind: KComputed, Rel: "zzb"}}}})
+	x.rel.Direct = append(x.rel.Direct, Ref{Type: x.t.Name, Rel: "zzbroken"})
+	return c
+}
+
+func exprHasThis(e *Expr) bool {
+	if e == nil {
+		return false
+	}
+	if e.Kind == KThis {
+		return true
+	}
+	for _, ch := range e.Children {
+		if exprHasThis(ch) {
+			return true
+		}
+	}
+	return false
+}
+
 // injectInterning makes 1-3 relations anywhere in the model repeat the operator
 // rewrite of another relation (keeping their own type restrictions: the same
 // rewrite means something else in another relation or type) and renders every
